@@ -196,8 +196,26 @@ theorem mem_scanKeys_of_infix (l : List Char) (p n : Nat)
   exact mem_scanKeysAux _ _ _ (Or.inr ⟨pre, keyPattern p n ++ rest,
     by rw [← h, List.append_assoc], keyAt_keyPattern p n rest⟩)
 
-#print axioms splitOn_of_not_infix
-#print axioms lookupIn_absent_of_not_infix
-#print axioms mem_scanKeys_of_infix
+
+
+/-! ## non-vacuity / sanity -/
+
+example : keyPattern 2 1 = "[2,1,[".toList := by decide
+
+/-- a pattern containing a character that does not occur in the text is not an infix -/
+theorem not_infix_of_mem_not_mem {P S : List Char} (c : Char) (hP : c ∈ P) (hS : c ∉ S) :
+    ¬ P <:+: S := fun h => hS (h.subset hP)
+
+example : "[2,1,[1,1]],".splitOn "[3," = ["[2,1,[1,1]],"] :=
+  splitOn_of_not_infix _ _ (not_infix_of_mem_not_mem '3' (by decide) (by decide))
+
+example : Algobra.Conway.lookupIn "[2,1,[1,1]]," 3 1 = .error .inputValue :=
+  lookupIn_absent_of_not_infix _ 3 1 (not_infix_of_mem_not_mem '3' (by decide) (by decide))
+
+example : keyPattern 2 1 <:+: "x[2,1,[1,1]],".toList :=
+  ⟨['x'], "1,1]],".toList, by decide⟩
+
+example : (2, 1) ∈ Algobra.C04Check.scanKeys "x[2,1,[1,1]],".toList :=
+  mem_scanKeys_of_infix _ 2 1 ⟨['x'], "1,1]],".toList, by decide⟩
 
 end Algobra.C04
